@@ -864,7 +864,8 @@ pub fn check_generation(
                             if !ok {
                                 let (class, msg) = last_err.unwrap_or_default();
                                 let mut f = fail(&format!("after-recovery/{class}"), format!("{what}: latest values equal the state after {:?} commits, but the versions do not: {msg}", hs), aux);
-                                if marks.index_update_open[p] && class != "history-version-listed-twice" {
+                                if marks.index_update_open[p] {
+                                    // (also a version listed twice: a split interrupted half-way leaves the entry in two leaves)
                                     // known finding F44 (a crash - process or power - while the B+tree index is being updated in
                                     // place, between the first page write of the update and its fsync): counted, reported once
                                     // at the end of the case, and the enumeration goes on with the next image
